@@ -19,6 +19,15 @@ PROFILE = {"mix": 6, "occ": 3, "reject": 1, "inflight": 1, "pad_fixed": 1}
 
 
 def run(tier, replay=None, pid=PID, profile=PROFILE, k=101, nq=16, nt=400, extra=None):
+    try:
+        # kernel level (checks/ckernels.py, docs/ckernels.md): the translated <alg>_single base block functions
+        from checks import ckernels
+    except ImportError:
+        ckernels = None
+    if replay and pid == PID and ckernels is not None:
+        rc = ckernels.maybe_replay(pid, tier, replay)      # None unless the file is a kernel replay
+        if rc is not None:
+            return rc
     rep = vlib.Report(pid, "proof", tier, "cd coq && make Properties/%s.vo Gen/HashCfgGen.vo  (coqc 8.16.1, full .vo build)" % pid)
     rng = vlib.SplitMix64(vlib.seed() * 1000003 + k)
     ok, broken = hc.coq_step(rep, pid)
@@ -95,6 +104,8 @@ def run(tier, replay=None, pid=PID, profile=PROFILE, k=101, nq=16, nt=400, extra
             hashbase = None
         if hashbase is not None:
             hashbase.base_whitebox(rep, tier)
+        if ckernels is not None:
+            ckernels.kernels_c01(rep, tier)      # obligations of Properties/C01_kernels.v + translator cross-check + protocol
     if extra:
         # hook for a check that extends this one (e.g. C06's lane-level white-box): runs after
         # everything above, before the verdict is written; may add obligations / violations to rep
